@@ -20,7 +20,7 @@ TECHNIQUE = ("stateful property-based testing (Hypothesis): generated histories 
              "columns, multi-cell collections, counters, LWT, batches); after every operation the interpreter's rows are compared with a "
              "reference model of the documented mapper semantics, and rows are read back through cqlengine's own SELECT path")
 RULE = ("One case = model flags (clustering column or not, db_field names different from attribute names, a column default, a static map) and "
-        "a history of up to 14 steps over keys k in 1..3, c in 1..2: create (values, explicit None, empty collections, static-only rows, "
+        "a history of up to 16 steps over keys k in 1..3, c in 0..2 (0 = falsy but valid clustering key): create (values, explicit None, empty collections, static-only rows, "
         "ttl / timestamp / if_not_exists), load through Model.get, attribute assignment and in-place collection mutation followed by "
         "save() or update(**kw) (iff / if_exists / ttl / timestamp), delete, blind instance update, queryset update with scalar "
         "assignment, None, collection assignment and __add/__remove/__append/__prepend/__update/__remove (possibly empty), queryset "
@@ -55,7 +55,7 @@ KS = "ks"
 # strategies
 # ---------------------------------------------------------------------------------------------------------
 _K = st.integers(1, 3)
-_C = st.integers(1, 2)
+_C = st.sampled_from([0, 0, 1, 2])      # 0: a falsy but perfectly valid clustering key
 _INT = st.integers(0, 5)
 _TEXT = st.sampled_from(["x", "y", "z", "", "it's"])
 _SET = st.lists(st.integers(0, 4), max_size=3).map(lambda v: sorted(set(v)))
@@ -858,6 +858,8 @@ def interpret(case, ctx):
                 obj._batch = None
                 if batch is not None:
                     obj.batch(batch)
+                if meta.has_ck and c == 0 and any(kk == k and cc != 0 and sh.exists(kk, cc) for (kk, cc) in sh.rows):
+                    ctx.label("delete:falsy-clustering-key-with-sibling-rows")
                 outcome = run(["C35.run", "delete"], obj.delete, (bool(iff_kw) and not holds) or (if_exists and not row_exists))
                 slots[si] = None
                 if outcome != "ok":
@@ -1065,7 +1067,7 @@ def interpret(case, ctx):
                 do_assign(h, sets, [])
                 nk, nc = h.k, h.c
                 if meta.has_ck and not step["part"]:
-                    nc = step["c"] if step["c"] != h.c else h.c % 2 + 1
+                    nc = step["c"] if step["c"] != h.c else (h.c + 1) % 3
                     h.obj.c = nc
                 else:
                     nk = step["k"] if step["k"] != h.k else h.k % 3 + 1
